@@ -1372,8 +1372,8 @@ func main() {
 		r := rng.Fork()
 		counts := []int{63, 64, 65, 127, 128, 129, 255, 256, 257, 512, 1024}
 		if o.Thorough() {
-			counts = append(counts, 100, 200, 383, 384, 385, 1000, 1023, 1025, 2048, 4096, 8192)
-			for i := 0; i < 60; i++ {
+			counts = append(counts, 100, 200, 383, 384, 385, 1000, 1023, 1025, 2048, 4096)
+			for i := 0; i < 20; i++ {
 				counts = append(counts, 1+r.Intn(3000))
 			}
 		}
